@@ -165,7 +165,7 @@ func main() {
 		}
 	}
 
-	// report the smallest counterexamples: per kind at most 4, shortest sequence first
+	// report the smallest counterexamples: per (kind, last event) at most 2, shortest sequence first, 40 in all
 	sort.SliceStable(all, func(i, j int) bool {
 		if all[i].plen != all[j].plen {
 			return all[i].plen < all[j].plen
@@ -173,9 +173,14 @@ func main() {
 		return all[i].sig < all[j].sig
 	})
 	perKind := map[string]int{}
+	perClass := map[string]int{}
+	reported := 0
 	for _, v := range all {
 		perKind[v.kind]++
-		if perKind[v.kind] <= 4 {
+		cl := v.kind + "/" + v.last
+		perClass[cl]++
+		if perClass[cl] <= 2 && reported < 40 {
+			reported++
 			r.Violation(v.sig, v.detail)
 		}
 	}
